@@ -76,6 +76,8 @@ type fxTaskEvent struct {
 	Status string
 	Head   string // id of items[0] of the queue at handler entry
 	VT     time.Duration
+	Thread int // scheduler thread that handled the task
+	Step   int // scheduler step count at this moment
 }
 
 type fixture struct {
@@ -297,6 +299,8 @@ func (fx *fixture) taskBegin(qname string, t task.Task) {
 	}
 	if x := vrt.Active(); x != nil {
 		ev.VT = x.Now()
+		ev.Thread = vrt.ThreadID()
+		ev.Step = len(x.Trace)
 	}
 	fx.Events = append(fx.Events, ev)
 }
